@@ -6,19 +6,28 @@ import numpy as np
 
 from harness.common import frac, err_kind, close
 
-DISABLED = True
 PID = "C28"
 THEOREMS = [
     "PorepyVerif.C28.tolSmall_default",
+    "PorepyVerif.C28.bound_gap",
     "PorepyVerif.C28.seg2d_eq_spec",
     "PorepyVerif.C28.seg3d_eq_spec",
+    "PorepyVerif.C28.mem_segInter2_iff",
+    "PorepyVerif.C28.mem_segInter3_iff",
+    "PorepyVerif.C28.segInter_wf",
+    "PorepyVerif.C28.seg_symmetric",
+    "PorepyVerif.C28.seg2d_symmetric",
+    "PorepyVerif.C28.seg3d_symmetric",
+    "PorepyVerif.C28.seg2d_zero_length_errors",
+    "PorepyVerif.C28.seg3d_zero_length",
+    "PorepyVerif.C28.seg2d_assert_never_fires",
     "PorepyVerif.C28.seg3dCode_misses_crossing",
     "PorepyVerif.C28.seg3dCode_doubles_touching_point",
 ]
 LEAN_MODULES = ["PorepyVerif.C28.Props"]
 AUDIT = "PorepyVerif/C28/Audit.lean"
 DRIVER = "PorepyVerif/C28/Driver.lean"
-N = {"quick": 700, "thorough": 14000}
+N = {"quick": 800, "thorough": 20000}
 RULE = ("pairs of segments with integer coordinates, dimension 2 or 3, in a box |x| <= B with B from 2 to 1000 "
         "(B*B*8*tol < 1 always; tol mostly the default 1e-8, sometimes 1e-10/1e-6/1e-4 with a smaller box); classes built on purpose: "
         "crossing in the interior (integer or fractional parameters), T-touching, shared endpoint, parallel disjoint, "
@@ -30,13 +39,18 @@ RULE = ("pairs of segments with integer coordinates, dimension 2 or 3, in a box 
 TRUSTED = [
     "modelled, not verified: binary64 rounding inside segments_2d/segments_3d (model is exact over Q; outputs compared with 1e-9 tolerance), "
     "np.allclose / np.argsort (stable for 4 entries) / boolean-mask indexing glue, the behaviour of float division by an exact zero (nan/inf -> AssertionError) for zero-length 2-D segments",
-    "segments_3d is modelled WITH the two proposed repairs (fixes/C28-*.diff); the model of the code as it is (seg3dCode) is compared with the real code on the known-finding cases by the oracle's classification only",
+    "segments_3d is modelled WITH the two proposed repairs (fixes/C28-segments3d-discriminant-pair.diff, fixes/C28-segments3d-touching-point.diff); on inputs where the unrepaired code "
+    "deviates (the two known findings) the model-vs-code comparison is skipped and only the oracle's classification of the failure is checked; seg3dCode (the code as it is) is used for the decide-witnesses of the findings",
+    "squared-form rewrites of the sqrt comparisons in segments_2d (|a| < tol*sqrt(l1)*sqrt(l2) <=> a^2 < tol^2*l1*l2 for tol >= 0) are documented next to the model definitions, not proved in Lean (no sqrt in the model)",
 ]
-EXPLANATION = ("FULL for bounded integer coordinates: seg2d/seg3d are branch-for-branch models over Q with tol a parameter (squared-length form); "
-               "seg2d_eq_spec / seg3d_eq_spec: for integer coordinates in [-B,B] with 8*B*B*tol < 1 (B=1000, tol=1e-8) the models equal the exact "
-               "specification segInter2/segInter3, whose points are proved to be exactly the common points of the two segments; seg_symmetric: result independent of argument order (as a set). "
-               "The real segments_3d violates the property in two ways (known findings); the model follows the repaired code. "
-               "Correspondence compares result kind exactly and points within 1e-9 in four argument orders; the oracle is an independent exact Fraction intersection.")
+EXPLANATION = ("FULL for bounded integer coordinates. seg2d/seg3d are branch-for-branch models over Q with tol a parameter (squared-length form). "
+               "seg2d_eq_spec / seg3d_eq_spec: for integer coordinates in [-B,B] with 8*B*B*tol < 1 (B=1000, tol=1e-8: tolSmall_default) the models return exactly the "
+               "specification segInter2/segInter3 (same kind, same points; 2-D also same column order); the bound enters only through the gap lemmas summarised by bound_gap. "
+               "mem_segInter2_iff / mem_segInter3_iff + segInter_wf: for ALL rational segments of positive length the specification's points are exactly the common points of the two closed segments, "
+               "so 'agrees with exact arithmetic' is a theorem about the set intersection, not about a second formula. seg_symmetric (+ seg2d_symmetric, seg3d_symmetric): independence of argument order as sets. "
+               "The real segments_3d violates the property in two ways (known findings, decide-witnesses seg3dCode_misses_crossing / seg3dCode_doubles_touching_point); the model follows the repaired code. "
+               "Correspondence compares result kind exactly and points within 1e-9 (column order included) in four argument orders, and the Lean specification with an independent python Fraction intersection; "
+               "the oracle is that independent exact intersection against the real functions.")
 ASSUMPTIONS = ["integer coordinates in [-B, B] and 8*B*B*tol < 1 (bounded-integer reading of 'well-separated degeneracies')",
                "both segments have positive length (zero-length segments are modelled and compared, but are outside the property)"]
 
